@@ -81,10 +81,10 @@ def r25_2(ctx):
     return rr
 
 
-def r25_3(ctx):
-    rr = RuleResult("R25.3", "PASS", "every lock.acquire() is followed by a try/finally that releases on every exit", min_instances=2)
+def r25_3(ctx, sites=None, rule="R25.3", prop=PROP):
     repo = ctx.repo
-    sites = [(repo.mod("dask_array.io._store").func("load_store_chunk")), (repo.mod("dask_array._core_utils").func("getter"))]
+    rr = RuleResult(rule, "PASS", "every lock.acquire() is followed by a try/finally that releases on every exit", min_instances=2 if sites is None else len(sites))
+    sites = sites or [(repo.mod("dask_array.io._store").func("load_store_chunk")), (repo.mod("dask_array._core_utils").func("getter"))]
     for f in sites:
         cfg = cfg_of(ctx, f)
         acq = [s for s in cfg.stmts() if any(isinstance(c, ast.Call) and isinstance(c.func, ast.Attribute) and c.func.attr == "acquire" and unparse(c.func.value) == "lock" for c in ast.walk(s)) and not isinstance(s, (ast.If, ast.Try))]
